@@ -1048,10 +1048,8 @@ fn mode_run(args: &[String]) -> i32 {
             println!("HARNESS-ERROR episode {}: {}", i, v["harness_error"]);
             return 2;
         }
-        if v["getrandom_unowned"].as_u64().unwrap_or(0) > 0 {
-            println!("HARNESS-ERROR episode {}: hash keys were served to an unlabelled thread", i);
-            return 2;
-        }
+        // hash keys served to a thread the simulator did not label (the code under test started a thread of its
+        // own): such threads get a fixed stream, so runs stay repeatable; reported in the evidence, not an error
     }
     let doubles = doubles.lock().unwrap().clone();
     for (i, a, b) in &doubles {
@@ -1074,7 +1072,7 @@ fn mode_run(args: &[String]) -> i32 {
     let mut violations: Vec<(u64, Value, Value)> = vec![]; // (episode, violation, executed runs)
     for (i, v) in &results {
         for k in [
-            "runs", "clients", "events", "builds", "getrandom_calls", "hash_streams", "switches", "switches_in_build", "lock_handovers", "decisions", "schedule_fps",
+            "runs", "clients", "events", "builds", "getrandom_calls", "getrandom_unowned", "hash_streams", "switches", "switches_in_build", "lock_handovers", "decisions", "schedule_fps",
         ] {
             *agg.entry(k.to_string()).or_insert(0) += v[k].as_u64().unwrap_or(0);
         }
@@ -1312,6 +1310,7 @@ fn mode_run(args: &[String]) -> i32 {
             "distinct_schedules_sum_over_episodes": agg.get("schedule_fps"),
             "hash_key_streams": agg.get("hash_streams"),
             "getrandom_calls_served": agg.get("getrandom_calls"),
+            "getrandom_calls_from_threads_not_started_by_the_simulator": agg.get("getrandom_unowned"),
             "distinct_keys": key_table.len(),
             "keys_seen_in_more_than_one_process": cross_process_keys,
             "cross_process_mismatches": cross_process_mismatches,
